@@ -266,13 +266,32 @@ func (a *Operator) useHexEscapes(input string) string {
 func (o *Operator) dontUseFlagsForMetaCharacters(input string) string {
 	result := input
 	flagsStartRegexp := regexp.MustCompile(`\(\?[-misU]+\)`)
-	result = flagsStartRegexp.ReplaceAllLiteralString(result, "")
+	// An escaped parenthesis followed by `?i)` is ordinary text, not a flag group.
+	var withoutFlags strings.Builder
+	last := 0
+	for _, location := range flagsStartRegexp.FindAllStringIndex(result, -1) {
+		if utils.IsEscaped(result, location[0]) {
+			continue
+		}
+		withoutFlags.WriteString(result[last:location[0]])
+		last = location[1]
+	}
+	withoutFlags.WriteString(result[last:])
+	result = withoutFlags.String()
 
 	flagGroupStartRegexp := regexp.MustCompile(`\(\?[-misU]+:`)
+	searchFrom := 0
 	for {
-		location := flagGroupStartRegexp.FindStringIndex(result)
+		location := flagGroupStartRegexp.FindStringIndex(result[searchFrom:])
 		if len(location) > 0 {
-			result = o.removeGroup(result, location[0], location[1], false)
+			groupStart, bodyStart := searchFrom+location[0], searchFrom+location[1]
+			if utils.IsEscaped(result, groupStart) {
+				// `\(?i:` is an escaped parenthesis followed by ordinary text
+				searchFrom = bodyStart
+				continue
+			}
+			result = o.removeGroup(result, groupStart, bodyStart, false)
+			searchFrom = groupStart
 		} else {
 			break
 		}
